@@ -1154,6 +1154,29 @@ static const uint8_t *unmarshal_one_fiber(
         if (pcdiff >= def->bytecode_length) {
             janet_panic("fiber stackframe has invalid pc");
         }
+        /* When execution comes back to a frame - the fiber is resumed, or the
+         * frame above returns - the interpreter stores a value in register A of
+         * the instruction at pc and goes on with the next instruction. Neither
+         * is covered by bytecode verification for an arbitrary pc. */
+        {
+            int is_top = (stack == frame);
+            int32_t fstatus = (fiber_flags & JANET_FIBER_STATUS_MASK) >> JANET_FIBER_STATUS_OFFSET;
+            int can_run = !is_top || !(fstatus == JANET_STATUS_DEAD ||
+                                       fstatus == JANET_STATUS_ERROR ||
+                                       (fstatus >= JANET_STATUS_USER0 && fstatus <= JANET_STATUS_USER4));
+            uint32_t instr = def->bytecode[pcdiff];
+            if (is_top && (fiber_flags & JANET_FIBER_DID_LONGJUMP) && (instr & 0xFF) == JOP_TAILCALL) {
+                /* The frame is dropped before anything is stored */
+                can_run = 0;
+            }
+            int use_val = !is_top || !(fiber_flags & JANET_FIBER_RESUME_NO_USEVAL);
+            int skip = !is_top || !(fiber_flags & JANET_FIBER_RESUME_NO_SKIP);
+            if (can_run &&
+                    ((use_val && (int32_t)((instr >> 8) & 0xFF) >= def->slotcount) ||
+                     (skip && pcdiff + 1 >= def->bytecode_length))) {
+                janet_panic("fiber stackframe has invalid pc");
+            }
+        }
         if (prevframe > stack - JANET_FRAME_SIZE) {
             janet_panic("fiber stackframe does not align with previous frame");
         }
